@@ -47,6 +47,7 @@ if True:
     with open(root+'/RESULTS.md','w') as f:
         f.write('# Seeded changes: which check catches which\n\nEach change was written by an independent sub-agent that saw only the property text and a scratch worktree.\n`suite` = existing test suite with the change; `demo` = the agent\'s demonstration with / without the change; `check` = exit code of `bin/symgo check <property> --tier quick` with the change applied to /repo (1 = VIOLATION).\n\n| seed | property | suite | demo with/without | check | caught by |\n|---|---|---|---|---|---|\n')
         for m in rows:
-            c=m['caught_by'][0] if m['caught_by'] else m.get('note','')
+            c=m['caught_by'][0] if m.get('caught_by') else m.get('note','')
             c=re.sub(r'site=\S+','',c).replace('|','/')[:150]
+            if 'seed' not in m: continue
             f.write(f"| {m['seed']} | {m['property']} | {m['confirmed']['existing_suite_with_change']} | {m['confirmed']['demo_with_change']}/{m['confirmed']['demo_without_change']} | {m['check_exit']} | {c} |\n")
